@@ -21,6 +21,40 @@ pub struct Case {
     pub stack: bool,
     pub mutated: bool,
     pub kind: String,
+    /// judge through the real binary (`lace check`, unoptimised debug build; release too in the
+    /// thorough tier) instead of in-process: stack depth and frame sizes are those a user gets
+    #[serde(default)]
+    pub cli: bool,
+}
+
+/// `lace check <file>` in a process of its own: any exit by signal, status 101 or with a panic
+/// message is a crash. A panic's site is parsed from stderr so that known findings keep their
+/// signature.
+fn judge_cli(text: &str, release: bool) -> Option<(String, String)> {
+    use crate::cli::{self, TempDir};
+    let dir = TempDir::new();
+    dir.write("f.asm", text.as_bytes());
+    let run = cli::lace(&["check", "f.asm"], dir.path(), &[], release, 300);
+    if run.timed_out {
+        return None; // watchdog: infrastructure, not a verdict
+    }
+    if !run.panicked() {
+        return None;
+    }
+    let err = String::from_utf8_lossy(&run.stderr).to_string();
+    let sig = match err.find("panicked at ") {
+        Some(i) => {
+            let rest = &err[i + "panicked at ".len()..];
+            let loc_full = rest.lines().next().unwrap_or("").trim_end_matches(':');
+            // "<file>:<line>:<col>" -> "<file>:<line>"
+            let loc = loc_full.rsplitn(2, ':').nth(1).unwrap_or(loc_full);
+            let msg = rest.lines().nth(1).unwrap_or("").trim();
+            format!("C05:{}", super::c01::panic_sig(msg, loc))
+        }
+        None if err.contains("overflowed its stack") => "C05:cli-stack-overflow".to_string(),
+        None => format!("C05:cli-killed-by-signal-{}", run.signal.unwrap_or(0)),
+    };
+    Some((sig, format!("`lace check` ({} build) crashed: {}\n--- source ---\n{}", if release { "release" } else { "debug" }, run.brief(), clip(text))))
 }
 
 pub fn judge_text(text: &str, stack: bool) -> Option<(String, String)> {
@@ -78,6 +112,14 @@ pub fn judge_case(c: &Case) -> Obs {
     obs.key = hash_of(&(&c.text, c.stack));
     obs.nontrivial = c.mutated && c.text.chars().any(|ch| !ch.is_whitespace() && ch != ',' && ch != ':');
     obs.show = Some(format!("[{}] {}", c.kind, clip(&c.text)));
+    if c.cli {
+        obs.label("through-the-real-binary");
+        let release = std::env::var("VERIF_CLI_REL").map(|p| std::path::Path::new(&p).exists()).unwrap_or(false);
+        if let Some((sig, msg)) = judge_cli(&c.text, false).or_else(|| if release { judge_cli(&c.text, true) } else { None }) {
+            obs.set_fail(sig, msg);
+        }
+        return obs;
+    }
     if let Some((sig, msg)) = judge_text(&c.text, c.stack) {
         obs.set_fail(sig, msg);
     }
@@ -295,7 +337,7 @@ fn mutated_cases() -> impl Strategy<Value = Case> {
     (raw_program(12), prop::collection::vec(mutation(), 1..5)).prop_map(|(raw, muts)| {
         let p = build_program(&raw);
         let (text, changed) = apply(tokens_of(&p), &muts);
-        Case { text, stack: raw.stack, mutated: changed, kind: "mutated-program".into() }
+        Case { text, stack: raw.stack, mutated: changed, kind: "mutated-program".into(), cli: false }
     })
 }
 
@@ -307,13 +349,13 @@ fn soup_cases() -> impl Strategy<Value = Case> {
             text.push_str(&pool()[idx(s, pool().len())]);
             text.push_str([" ", "\n", ",", "", " ", "\t", ":", " "][sep as usize]);
         }
-        Case { text, stack, mutated: true, kind: "token-soup".into() }
+        Case { text, stack, mutated: true, kind: "token-soup".into(), cli: false }
     })
 }
 
 /// Arbitrary unicode strings (byte-level flavour within valid UTF-8).
 fn string_cases() -> impl Strategy<Value = Case> {
-    (".{0,40}", any::<bool>()).prop_map(|(text, stack)| Case { text, stack, mutated: true, kind: "arbitrary-string".into() })
+    (".{0,40}", any::<bool>()).prop_map(|(text, stack)| Case { text, stack, mutated: true, kind: "arbitrary-string".into(), cli: false })
 }
 
 // ---------------------------------------------------------------------------------------------
@@ -341,7 +383,7 @@ fn char_positions(ctx: &Ctx, rep: &mut Report) {
                 let mut text = b.to_string();
                 text.insert(byte, ch);
                 for stack in [false, true] {
-                    let case = Case { text: text.clone(), stack, mutated: true, kind: "char-at-every-position".into() };
+                    let case = Case { text: text.clone(), stack, mutated: true, kind: "char-at-every-position".into(), cli: false };
                     judge_one(ctx, rep, &case, &mut |c| {
                         let mut o = judge_case(c);
                         o.label("char-positions");
@@ -365,7 +407,7 @@ fn numeric_positions(ctx: &Ctx, rep: &mut Report) {
             if !ctx.mine(n) {
                 continue;
             }
-            let case = Case { text: f.replace('@', t), stack: n % 2 == 0, mutated: true, kind: "numeric-edge-in-every-position".into() };
+            let case = Case { text: f.replace('@', t), stack: n % 2 == 0, mutated: true, kind: "numeric-edge-in-every-position".into(), cli: false };
             judge_one(ctx, rep, &case, &mut |c| {
                 let mut o = judge_case(c);
                 o.label("numeric-edges");
@@ -423,14 +465,34 @@ fn fixed_list(ctx: &Ctx, rep: &mut Report) {
     add("comment-70000", format!("halt ; {}\n", "c".repeat(70_000)));
     add("one-long-token", "a".repeat(70_000));
     add("one-long-hex", format!("x{}", "F".repeat(70_000)));
+    // very long runs of one kind of insignificant or repeated item (whatever walks over them must
+    // do so in constant stack)
+    for (name, unit) in [
+        ("comment-lines", "; a comment line\n"), ("blank-lines", "\n"), ("blanks", " "), ("commas", ","), ("colons", ":"), ("tabs", "\t"), ("crlf-lines", "\r\n"),
+        ("break-directives", ".break\n"), ("end-less-labels", "lbl\n"), ("nested-looking-strings", "\"a\" "), ("semicolons", ";"),
+    ] {
+        for count in [400_000usize, 1_200_000] {
+            add(&format!("{count}-{name}"), format!("start add r0 r0 #1\n{}halt\n", unit.repeat(count)));
+        }
+    }
+    add("comment-lines-only", "; nothing but comments\n".repeat(1_000_000));
     let mut n = 0u64;
     for (kind, text) in texts {
         n += 1;
         if !ctx.mine(n) {
             continue;
         }
+        if kind != "fixed-small" {
+            // size extremes also through the real, unoptimised binary (stack depth, frame sizes)
+            let case = Case { text: text.clone(), stack: false, mutated: true, kind: kind.clone(), cli: true };
+            judge_one(ctx, rep, &case, &mut |c| {
+                let mut o = judge_case(c);
+                o.label("size-extreme");
+                o
+            });
+        }
         for stack in [false, true] {
-            let case = Case { text: text.clone(), stack, mutated: true, kind: kind.clone() };
+            let case = Case { text: text.clone(), stack, mutated: true, kind: kind.clone(), cli: false };
             judge_one(ctx, rep, &case, &mut |c| {
                 let mut o = judge_case(c);
                 o.label(if c.kind == "fixed-small" { "fixed-small" } else { "size-extreme" });
@@ -447,7 +509,7 @@ impl Prop for C05 {
     fn rule(&self) -> &'static str {
         "Texts: (a) valid generated programs with 1-4 token-level mutations (delete, duplicate, swap, replace/insert a token of any kind from a ~400-entry pool incl. directives, strings, edge literals, junk and numbers at the limits of every integer width 2^7..2^128 in every spelling), abutting, character insertion/deletion and truncation; \
          (b) token soup from the pool; (c) arbitrary unicode strings; (d) multi-byte / combining / NUL characters at every character position of 24 representative statements (enumerated); (e) every numeric edge token in every operand / label position of 19 statement frames (enumerated); (f) a fixed list of lone prefixes, directives in operand position and size extremes \
-         (.blkw xFFFF + statements, label distances 0x7FFE..0xFFFD in both directions, 70,000 statements, 66,000 labels, 70,000-character strings/tokens). thorough adds libFuzzer campaigns (fuzz/asm_total). \
+         (.blkw xFFFF + statements, label distances 0x7FFE..0xFFFD in both directions, 70,000 statements, 66,000 labels, 70,000-character strings/tokens, runs of 400,000 and 1,200,000 comment lines / blank lines / blanks / commas / colons / `.break` directives / labels). The size extremes are also judged through the real binary (`lace check`, unoptimised debug build; release too in thorough), where stack depth and frame sizes are the user's. thorough adds libFuzzer campaigns (fuzz/asm_total). \
          Oracle: no panic in lex/parse/backpatch/emit/render under debug assertions + overflow checks (and release in thorough); every diagnostic label span denotes a substring of the source (in bounds, on character boundaries); the diagnostic is non-empty. \
          Non-trivial: at least one mutation changed the text and it contains a token. Distinct = hash(text, flag)."
     }
@@ -456,6 +518,9 @@ impl Prop for C05 {
             "Only valid UTF-8 is offered (main reads sources with read_to_string)".into(),
             "Termination is a function-call return; the only input-unbounded loop (.blkw expansion) is bounded by the 16-bit count; a wall-clock watchdog is infrastructure only".into(),
         ]
+    }
+    fn needs_cli(&self) -> bool {
+        true
     }
     fn run_worker(&self, ctx: &Ctx, rep: &mut Report) {
         fixed_list(ctx, rep);
